@@ -21,6 +21,13 @@ pub fn long_inputs(f: Family) -> Vec<Vec<u8>> {
 	v.push(format!("{seg40}/{big}?{mid}"));
 	v.push(format!("/{big}/{seg17}#{big}"));
 	v.push(format!("s://[::1]:65535/{mid}"));
+	// many delimiters of the same kind inside one component (inline buffers sized by "at most n")
+	v.push("s://u:p:q:r:s:t:u:v:w:x@[1:2:3:4:5:6:7:8]:8080/p".to_string());
+	v.push("//user:pw@[2001:db8:0:1:2:3:4:5]:8080".to_string());
+	v.push("//[v1.a:b:c:d:e:f:g:h:i:j:k:l]:1".to_string());
+	v.push(format!("s://h/p?{}#{}", "a=b&".repeat(40), "x/y?z:".repeat(40)));
+	v.push(format!("s://{}h/{}", "a.".repeat(40), "a;b=c,".repeat(40)));
+	v.push(format!("{}:x", format!("s{}", "+a.b-c".repeat(60))));
 	if f == Family::Iri {
 		let e = rep("é", 3000);
 		v.push(format!("s://é@é/{e}/€/😀?{e}#{e}"));
@@ -114,6 +121,10 @@ pub fn data_url_inputs() -> Vec<String> {
 	let mut v: Vec<String> = ["data:,", "data:,x", "data:text/plain,hello%20world", "data:;base64,QQ==", "data:text/plain;base64,SGVsbG8=", "data:a/b,;,"].iter().map(|s| s.to_string()).collect();
 	v.push(format!("data:{},{}", "a/".repeat(300), "x".repeat(5000)));
 	v.push(format!("data:text/plain;base64,{}", "QUJD".repeat(400)));
+	// rejected texts: DataUrl::new hands the input back in its error, so it must not allocate either
+	for t in ["data:;BASE64,QUJD", "data:text/plain;charset=utf-8,x", "data:text/plain;Base64,QUJD", "data:;base6,", "dat:,", "data:a b,", "data:text/plain"] {
+		v.push(t.to_string());
+	}
 	v
 }
 
@@ -137,11 +148,22 @@ pub fn data_url_case(t: &str) -> Vec<Violation> {
 				res.push(($name, c1 - c0, x));
 			}};
 		}
-		p!("DataUrl::new(&str)", DataUrl::new(t).map(|d| inside(d.as_str().as_bytes())).unwrap_or(false));
-		p!("DataUrl::new(&[u8])", DataUrl::new(t.as_bytes()).map(|d| inside(d.as_str().as_bytes())).unwrap_or(false));
-		p!("<&DataUrl>::try_from(&str)", <&DataUrl>::try_from(t).map(|d| inside(d.as_str().as_bytes())).unwrap_or(false));
-		if js.len() == t.len() + 2 {
-			p!("<&DataUrl>::deserialize", serde_json::from_str::<&DataUrl>(&js).is_ok());
+		let accepted = DataUrl::new(t).is_ok();
+		// (a rejected input comes back inside the error: same requirement on the payload)
+		p!("DataUrl::new(&str)", match DataUrl::new(t) {
+			Ok(d) => inside(d.as_str().as_bytes()),
+			Err(e) => inside(e.0.as_bytes()),
+		});
+		p!("DataUrl::new(&[u8])", match DataUrl::new(t.as_bytes()) {
+			Ok(d) => inside(d.as_str().as_bytes()),
+			Err(e) => inside(e.0),
+		});
+		if accepted {
+			// (the owned error of these two routes allocates by design: accepted inputs only)
+			p!("<&DataUrl>::try_from(&str)", <&DataUrl>::try_from(t).map(|d| inside(d.as_str().as_bytes())).unwrap_or(false));
+			if js.len() == t.len() + 2 {
+				p!("<&DataUrl>::deserialize", serde_json::from_str::<&DataUrl>(&js).is_ok());
+			}
 		}
 		if let Ok(d) = DataUrl::new(t) {
 			p!("media_type", d.media_type().map(|m| inside(m.as_bytes())).unwrap_or(true));
